@@ -44,6 +44,28 @@ pub fn c04_q_step() {
     kani::cover!(k == KeyCode::NumpadLock && s == KeyState::Down && want == m);
 }
 
+/// The step again, but after a symbolic two-event history on top of the pressed modifier set, so
+/// that decoder state which only builds up over several events is inside the query.
+#[kani::proof]
+pub fn c04_q_step_after_history() {
+    let calls = Cell::new(0);
+    let m0 = any_mods();
+    let h = any_mode();
+    let mut kb = kbd_with_mods(ScancodeSet1::new(), Spy { tag: false, calls: &calls }, &m0, h);
+    let (k1, s1) = (any_key(), any_state());
+    let (k2, s2) = (any_key(), any_state());
+    let (k3, s3) = (any_key(), any_state());
+    let _ = kb.process_keyevent(KeyEvent::new(k1, s1));
+    let _ = kb.process_keyevent(KeyEvent::new(k2, s2));
+    let m = spec_next(&spec_next(&m0, k1, s1), k2, s2);
+    assert!(*kb.get_modifiers() == m, "C04: modifier record after two events differs from the event history");
+    let _ = kb.process_keyevent(KeyEvent::new(k3, s3));
+    let want = spec_next(&m, k3, s3);
+    crate::show!("C04 history mods0={:?} ev1=({:?},{:?}) ev2=({:?},{:?}) ev3=({:?},{:?}) after={:?} want={:?}", m0, k1, s1, k2, s2, k3, s3, kb.get_modifiers(), want);
+    assert!(*kb.get_modifiers() == want, "C04: modifier record after a third event differs from the event history");
+    kani::cover!(want != m && m != m0);
+}
+
 /// The same step observed on a bare EventDecoder through what the layout is handed next.
 #[kani::proof]
 pub fn c04_q_step_eventdecoder() {
